@@ -711,6 +711,12 @@ int yr_execute_code(YR_SCAN_CONTEXT* context)
       pop(r3);  // number of true expressions
       pop(r4);  // last expression result
 
+      // The body of the loop can be an integer expression, which is true if
+      // it is not zero. Normalize it, as it's added to the number of true
+      // expressions afterwards.
+      if (!is_undef(r4))
+        r4.i = r4.i != 0 ? 1 : 0;
+
       // In case of 'all' loop, end once we the body failed
       if (is_undef(r2))
       {
